@@ -24,6 +24,8 @@ use crate::params::{
 use crate::{FuzzyHashType, GeneratorType};
 
 pub(crate) mod bucket_aggregation;
+#[cfg(fast_tlsh_verif)]
+pub(crate) mod verif;
 
 /// Window size to obtain local features.
 ///
